@@ -6,6 +6,7 @@ CONSTANTS
  Names <- NamesS
  Roots <- RootsOA
  HistK = 0
+ Stems <- NoStems
  EmitOn = FALSE
 VIEW View
 INVARIANTS Strict NoOob
